@@ -353,6 +353,13 @@ def run_plan(plan: Dict[str, Any]) -> Dict[str, Any]:
                     f"{kind} yields {what} (M6 identity / recorded pairing) although no M3 of the current exchange "
                     f"demonstrated knowledge of the setup code; pairings now: {len(r['paired'])}",
                 ])
+            if (o["O2"] or o["O3"]) and op["op"] == "M5" and op.get("mode") == "new" and op["key"] in ("s0", "random") \
+                    and op["sub"] == "valid":
+                viol.append([
+                    "C01:pairing-with-public-session-key",
+                    f"{kind} is accepted: the accessory's session key is one anybody can compute (S = 0) or guess, so the "
+                    f"peer that gets paired has demonstrated nothing; pairings now: {len(r['paired'])}",
+                ])
             # ---- ghost update
             t = _parse(r) or {}
             if t.get(pc.T_STATE) == b"\x02" and pc.T_ERROR not in t and pc.T_SALT in t and pc.T_PUBLIC_KEY in t:
@@ -403,7 +410,7 @@ def numeric_cases(ctx: Ctx):
     rng = ctx.rng
     cases = []
     spellings = [(0, b""), (0, b"\x00"), (1, None), (2, None), (1, "pad"), (5, None)]
-    for i in range(ctx.n(8, 120)):
+    for i in range(ctx.n(16, 300)):
         k, sp = spellings[i % len(spellings)] if i < 12 else (rng.randrange(0, 300), rng.choice([None, "pad"]))
         A = sp if isinstance(sp, bytes) else ref.i2b(k * ref.N)
         if sp == "pad":
@@ -452,7 +459,7 @@ def run(ctx: Ctx):
         "(hsrp.Server on A = 0 mod N vs Srp.lean).  A script is non-trivial if some request reaches a refusing or "
         "state-changing branch of the handler (all non-empty scripts do); distinct by the request bodies."
     )
-    plans = boundary_plans(rng) + [random_plan(rng) for _ in range(ctx.n(150, 6000))]
+    plans = boundary_plans(rng) + [random_plan(rng) for _ in range(ctx.n(220, 8000))]
     results = pe.pmap(run_plan, plans, workers=12)
 
     lines: List[Dict[str, Any]] = []
